@@ -258,3 +258,132 @@ def run_pipe(tier="quick", seed=0):
     else:
         res.update(status="no-cex", lines=[])
     return res
+
+
+BUMPS_BOUND = ("start version 1!1.2.3rc2.post4.dev5 (and 1.2.3) x every single flag and every pair out of 22 override / bump flags (with and without an amount; "
+               "label overrides and bumps) through the real CLI (`zerv version --source none`, schema standard-base-prerelease-post-dev, PEP 440 output), "
+               "compared with the statement's level semantics written in Python")
+
+_LEVELS = ["epoch", "major", "minor", "patch", "label", "num", "post", "dev"]
+
+
+def _oracle(start, ops):
+    """start: dict epoch, major, minor, patch, pre=(label, num)|None, post, dev; ops: dict level -> (override, bump) / for label (override_text, bump_text)"""
+    st = dict(start)
+
+    def reset_below(level):
+        i = _LEVELS.index(level)
+        for l in _LEVELS[i + 1:]:
+            if l in ("major", "minor", "patch", "epoch"):
+                st[l] = 0
+            elif l == "label":
+                st["pre"] = None
+            elif l == "num":
+                if st["pre"] is not None:
+                    st["pre"] = (st["pre"][0], 0)
+            else:
+                st[l] = None
+
+    for level in _LEVELS:
+        o, b = ops.get(level, (None, None))
+        if level in ("epoch", "major", "minor", "patch", "post", "dev"):
+            if o is not None:
+                st[level] = o
+            if b is not None:
+                st[level] = (st[level] or 0) + b
+                reset_below(level)
+        elif level == "label":
+            if o is not None:
+                onum = ops.get("num", (None, None))[0]
+                existing = st["pre"][1] if st["pre"] is not None else None
+                st["pre"] = (o, onum if onum is not None else (existing if existing is not None else 0))
+            if b is not None:
+                reset_below("label")
+                st["pre"] = (b, 0)
+        elif level == "num":
+            if o is not None:
+                st["pre"] = ((st["pre"][0] if st["pre"] is not None else "alpha"), o)
+            if b is not None:
+                if st["pre"] is None:
+                    st["pre"] = ("alpha", b)
+                else:
+                    st["pre"] = (st["pre"][0], (st["pre"][1] or 0) + b)
+                reset_below("num")
+    out = ""
+    if st["epoch"]:
+        out += f"{st['epoch']}!"
+    out += f"{st['major'] or 0}.{st['minor'] or 0}.{st['patch'] or 0}"
+    if st["pre"] is not None:
+        out += {"alpha": "a", "beta": "b", "rc": "rc"}[st["pre"][0]] + str(st["pre"][1] if st["pre"][1] is not None else 0)
+    if st["post"] is not None:
+        out += f".post{st['post']}"
+    if st["dev"] is not None:
+        out += f".dev{st['dev']}"
+    return out
+
+
+def run_bumps(tier="quick", seed=0):
+    """C05 end to end through the real CLI: flags -> clap -> defaults -> templates -> level processing -> rendering."""
+    import itertools
+    t0 = time.time()
+    res = {"family": "cli_bumps", "bound": BUMPS_BOUND, "cases": 0}
+    ok, msg = rengine.build_zerv()
+    if not ok:
+        res.update(status="error", lines=["the zerv binary does not build from the working tree: " + msg[-400:]])
+        return res
+    zerv = rengine.ZERV
+    work = tempfile.mkdtemp(prefix="verif_bumps_")
+    classes = {}
+
+    def bad(cls, text):
+        classes.setdefault(cls, []).append(f"CEX cli_bumps class={cls} {text}")
+
+    # (argv fragment, level, (override, bump))
+    flags = []
+    for level in ("epoch", "major", "minor", "patch", "post", "dev"):
+        flags.append(([f"--{level}", "7"], level, (7, None)))
+        flags.append(([f"--bump-{level}"], level, (None, 1)))
+        flags.append(([f"--bump-{level}", "3"], level, (None, 3)))
+    flags.append((["--pre-release-num", "6"], "num", (6, None)))
+    flags.append((["--bump-pre-release-num"], "num", (None, 1)))
+    flags.append((["--pre-release-label", "beta"], "label", ("beta", None)))
+    flags.append((["--bump-pre-release-label", "alpha"], "label", (None, "alpha")))
+    starts = [("1!1.2.3rc2.post4.dev5", dict(epoch=1, major=1, minor=2, patch=3, pre=("rc", 2), post=4, dev=5)),
+              ("1.2.3", dict(epoch=None, major=1, minor=2, patch=3, pre=None, post=None, dev=None))]
+    combos = [(f,) for f in flags] + [c for c in itertools.combinations(flags, 2) if c[0][1] != c[1][1] or (c[0][2][0] is None) != (c[1][2][0] is None)]
+    try:
+        env = {k: v for k, v in os.environ.items() if not k.startswith("RUST_LOG") and not k.startswith("ZERV_")}
+        env.update(TZ="Pacific/Kiritimati", HOME=work, NO_COLOR="1")
+        for tag, start in starts:
+            for combo in combos:
+                ops = {}
+                argv = ["version", "--source", "none", "--tag-version", tag, "--input-format", "pep440", "--output-format", "pep440",
+                        "--schema", "standard-base-prerelease-post-dev"]
+                skip = False
+                for frag, level, (o, b) in combo:
+                    po, pb = ops.get(level, (None, None))
+                    if (o is not None and po is not None) or (b is not None and pb is not None):
+                        skip = True
+                    ops[level] = (o if o is not None else po, b if b is not None else pb)
+                    argv += frag
+                if skip or (ops.get("label", (None, None))[0] is not None and ops.get("label", (None, None))[1] is not None):
+                    continue   # --pre-release-label together with --bump-pre-release-label is a documented conflict
+                res["cases"] += 1
+                want = _oracle(start, ops)
+                rc, out, err = _run(zerv, argv, None, work, env)
+                got = out.decode("utf-8", "replace").strip()
+                if rc != 0 or got != want:
+                    bad("bounded-agreement", f"`zerv {' '.join(argv[2:])}`: status {rc}, prints {got!r}; the level semantics give {want!r}"
+                        + (f" (stderr: {err.decode('utf-8', 'replace')[:160]!r})" if rc != 0 else ""))
+    finally:
+        shutil.rmtree(work, ignore_errors=True)
+    res["wall_s"] = round(time.time() - t0, 2)
+    if classes:
+        lines = [l for v in classes.values() for l in v]
+        res.update(status="cex", lines=lines[:5], classes={k: v[:5] for k, v in classes.items()})
+    else:
+        res.update(status="no-cex", lines=[])
+    return res
+
+
+FAMILIES = {"cli_discipline": run, "cli_pipe": run_pipe, "cli_bumps": run_bumps}
